@@ -62,6 +62,9 @@ type AnswLogConfig struct {
 	Filter  string `config:"filter" valid:"oneof=all warning error"`
 }
 
+// emptyTag marks samples of ammo without a tag, as the HTTP guns do.
+const emptyTag = "__EMPTY__"
+
 type Gun struct {
 	DebugLog bool
 	Conf     GunConfig
@@ -197,6 +200,9 @@ func (g *Gun) Shoot(am core.Ammo) {
 func (g *Gun) shoot(ammo *ammo.Ammo) {
 	code := 0
 	sample := netsample.Acquire(ammo.Tag)
+	if sample.Tags() == "" {
+		sample.AddTag(emptyTag)
+	}
 	defer func() {
 		sample.SetProtoCode(code)
 		g.Aggr.Report(sample)
